@@ -676,6 +676,16 @@ def judge_stmt(tr, env, n, stmt, ctx, cls):
     if E.ill_conditioned(val):
         return "ood", "ill-conditioned (rounding bound too wide to judge)"
     stmt["_nops"] = n_operator_nodes(eff)
+    if (len(text) + n + len(stmt.get("_text", ""))) % 4 == 0 and not ext:
+        # aliasing: makeRPN is public; a caller who parsed the same text (or its right-hand side) beforehand owns the
+        # token list he got and may have consumed it / bound values into it in place
+        import tracklib.core.utils as U
+        real = tr._n(text) if isinstance(tr, gen.NameProxy) else text
+        for piece in (real, real.split("=", 1)[-1]):
+            toks = M.call(U.makeRPN, piece)
+            if isinstance(toks, list):
+                M.scribble(toks)
+        ctx.count("token_list_of_makeRPN_modified_by_the_caller")
     before = state(tr)
     del RPN_LOG[:]
     if ext:
